@@ -6,7 +6,9 @@
 pub mod util;
 
 #[cfg(kani)]
-mod c37;
+pub mod c37;
+#[cfg(kani)]
+pub mod c23;
 
 // written by `./check <id> --replay <file>` (Kani concrete playback of a recorded counterexample)
 #[cfg(all(kani, test))]
